@@ -190,9 +190,14 @@ func runC05(c *vu.Case) {
 			results := make([]string, len(ops))
 			var wg sync.WaitGroup
 			finished := make([]chan struct{}, len(ops))
-			for tid, op := range ops {
-				g.arrive[tid] = make(chan *vsAccess, 1)
+			// (the gate's map is complete before any caller starts: callers read it)
+			arrive := make(map[int]chan *vsAccess, len(ops))
+			for tid := range ops {
+				arrive[tid] = make(chan *vsAccess, 1)
 				finished[tid] = make(chan struct{})
+			}
+			g.arrive = arrive
+			for tid, op := range ops {
 				wg.Add(1)
 				go func(tid int, op string) {
 					defer wg.Done()
